@@ -179,7 +179,9 @@ def gen_leaf(ch: Choices):
     if k == "plainenum":
         return ("plainenum", ch.pick("w.penum", ["X", "Y"]))
     if k == "datetime":
-        return ("datetime", ch.pick("w.dt", ["2020-01-02T03:04:05", "1999-12-31T23:59:59.250000", "2024-02-29T00:00:00"]))
+        return ("datetime", ch.pick("w.dt", ["2020-01-02T03:04:05", "1999-12-31T23:59:59.250000", "2024-02-29T00:00:00",
+                                               "2020-01-02T03:04:05+00:00", "2021-06-01T12:00:00.5+00:00", "2020-01-02T03:04:05+05:30",
+                                               "2020-01-02T03:04:05-08:00"]))
     if k == "date":
         return ("date", ch.pick("w.date", ["2021-02-03", "1970-01-01"]))
     if k == "decimal":
@@ -209,7 +211,7 @@ def gen_model(ctx: WorkCtx, depth: int):
                 n = ch.draw("w.m.nfl", 3)
                 fields[f] = ("list", [ctx.upload_node() if ch.chance("w.m.fl", 2, 3) else ("none",) for _ in range(n)])
         elif f == "when":
-            fields[f] = ("datetime", ch.pick("w.dt", ["2020-01-02T03:04:05", "1999-12-31T23:59:59.250000"]))
+            fields[f] = ("datetime", ch.pick("w.dt", ["2020-01-02T03:04:05", "1999-12-31T23:59:59.250000", "2020-01-02T03:04:05+00:00", "2020-01-02T03:04:05+02:00"]))
         elif f == "nested" and depth > 0:
             fields[f] = gen_model(ctx, depth - 1)
         elif f in ("children", "sub_items") and depth > 0:
